@@ -187,6 +187,11 @@ example (E : Env) : Covered E .push [some (.dyn Kind.any), some (.dyn Kind.any)]
     [some (arrOf [i 1]), some .null] :=
   ⟨_, _, ⟨rfl, rfl, by decide⟩, by decide, rfl⟩
 
+/-- `append(.p, [1, "a"])` -/
+example (E : Env) : Covered E .append [some (.dyn Kind.any), some (.lit (arrOf [i 1, .bytes [97]]))]
+    [some (arrOf [.null]), some (arrOf [i 1, .bytes [97]])] :=
+  ⟨_, _, ⟨rfl, rfl, by decide⟩, by decide, rfl⟩
+
 /-- a function outside every class: `array([1, "a"])`, `keys({"a": 1})`, `split("a,b", ",")` -/
 example (E : Env) : Covered E .array [some (.lit (arrOf [i 1, .bytes [97]]))] [some (arrOf [i 1, .bytes [97]])] :=
   ⟨_, _, ⟨rfl, rfl, by decide⟩, by decide, rfl⟩
